@@ -780,6 +780,15 @@ func C01AddEDNS(rnd *rand.Rand, m *dns.Msg, variant int) {
 
 // c01Structured builds a decodable message of the class (qr, op, qd, an, ns).
 func c01Structured(rnd *rand.Rand, qr bool, op string, qd, an, ns int, mode string, rich bool) []byte {
+	for {
+		// a drawn combination that miekg/dns refuses to pack is drawn again
+		if b := c01StructuredOnce(rnd, qr, op, qd, an, ns, mode, rich); b != nil {
+			return b
+		}
+	}
+}
+
+func c01StructuredOnce(rnd *rand.Rand, qr bool, op string, qd, an, ns int, mode string, rich bool) []byte {
 	m := new(dns.Msg)
 	m.Id = uint16(rnd.Intn(65536))
 	m.Response = qr
@@ -842,7 +851,7 @@ func c01Structured(rnd *rand.Rand, qr bool, op string, qd, an, ns int, mode stri
 	}
 	b, err := m.Pack()
 	if err != nil {
-		panic(fmt.Sprintf("c01: cannot pack generated message: %v", err))
+		return nil
 	}
 	return b
 }
